@@ -133,7 +133,8 @@ def run(ctx):
             g = ctx.dump_graph("PickerWrapper", cfg, workers=4)
             behs = edge_cover_nondet(ctx, g, make_step_of(sc["rpcs"]), limit)
             codes = CODES[ctx.seed % len(CODES)]
-            rows = [dict(rpcs=[{"name": r, "ff": r in sc["ff"]} for r in sc["rpcs"]], codes=codes, steps=b) for b in behs]
+            rows = [dict(rpcs=[{"name": r, "ff": r in sc["ff"]} for r in sc["rpcs"]], codes=codes, cause=(i % 2 == 1), steps=b)
+                    for i, b in enumerate(behs)]
             bpath = os.path.join(ctx.run, "beh-%s.ndjson" % name)
             tpath = os.path.join(ctx.run, "trace-%s.ndjson" % name)
             write_ndjson(bpath, rows)
